@@ -51,7 +51,7 @@ func init() {
 
 	Engines["C04"] = chainEngine("C04", &sim.ChainCfg{LedgerM: true},
 		func(tier string) *sim.GenParams {
-			return &sim.GenParams{Mix: sim.OpMix{"tx": 4, "mine": 6, "deliver": 8, "walk": 2, "reopen": 1, "truncate": 2, "badblock": 2}, MaxSteps: steps(tier, 26, 44), MaxNodes: 3, Windows: []int{0}, MapOrders: true, SmallCache: true}
+			return &sim.GenParams{Mix: sim.OpMix{"tx": 4, "mine": 6, "deliver": 8, "walk": 2, "reopen": 1, "truncate": 2, "badblock": 2}, MaxSteps: steps(tier, 26, 44), MaxNodes: 3, Windows: []int{0}, MapOrders: true, SmallCache: true, ReorgMotif: true}
 		}, "", func(st *sim.RunStats) bool { return st.Probes["trunk-switch"] > 0 || st.Probes["truncate"] > 0 })
 
 	Engines["C05"] = chainEngine("C05", &sim.ChainCfg{Reopen: true, NoTrace: true, RealMiner: true, Admit: true},
@@ -88,6 +88,6 @@ func init() {
 
 	Engines["C18"] = chainEngine("C18", &sim.ChainCfg{Snap: true},
 		func(tier string) *sim.GenParams {
-			return &sim.GenParams{Mix: sim.OpMix{"kvtx": 10, "tx": 2, "mine": 6, "deliver": 4, "walk": 2, "reopen": 1}, MaxSteps: steps(tier, 24, 40), MaxNodes: 2, Windows: []int{0}, MapOrders: true, SmallCache: true, KV: true}
+			return &sim.GenParams{Mix: sim.OpMix{"kvtx": 10, "tx": 2, "mine": 6, "deliver": 4, "walk": 2, "reopen": 1}, MaxSteps: steps(tier, 24, 40), MaxNodes: 2, Windows: []int{0}, MapOrders: true, SmallCache: true, KV: true, ReorgMotif: true}
 		}, "", func(st *sim.RunStats) bool { return st.Probes["snapshot-below-tip"] > 2 })
 }
